@@ -72,8 +72,17 @@ def strBody : Str → Option (Str × Str)
       | some (t, r) => some (c :: t, r)
       | none => none
 
-/-- a JSON number at the head of the input: classified literal and the rest -/
-def number (s : Str) : Option (JLit × Str) :=
+/-- serde_json rejects numbers that do not fit a finite `f64` ("number out of range") -/
+def finiteF64 (d : Dec) : Bool :=
+  let b : Dec := Dec.ofInt ((2 : Int) ^ 1024 - (2 : Int) ^ 970)
+  Dec.lt d b && Dec.lt (Dec.ofInt (-((2 : Int) ^ 1024 - (2 : Int) ^ 970))) d
+
+def checkFinite : Option (JLit × Str) → Option (JLit × Str)
+  | some (.float d, rest) => if finiteF64 d then some (.float d, rest) else none
+  | other => other
+
+/-- a JSON number at the head of the input: classified literal and the rest (before the range check) -/
+def numberRaw (s : Str) : Option (JLit × Str) :=
   let (neg, s1) := match s with
     | '-' :: r => (true, r)
     | _ => (false, s)
@@ -117,6 +126,9 @@ def number (s : Str) : Option (JLit × Str) :=
           | none => 0)
         if e10 ≥ 0 then some (.float ⟨m, e10.toNat⟩, rest)
         else some (.float ⟨m * (10 : Int) ^ (-e10).toNat, 0⟩, rest)
+
+/-- a JSON number at the head of the input: classified literal and the rest -/
+def number (s : Str) : Option (JLit × Str) := checkFinite (numberRaw s)
 
 def value (s : Str) : Option (JLit × Str) :=
   match s with
